@@ -211,7 +211,8 @@ def handleGroup (trait rpc strat : String) (behs : List Beh) (order : List Nat) 
 /-! ## the subscription loop: `pull <trait> <n> <events>`
 
 events: `,`-separated `i:v1.v2…` (member `i` delivers a message with the value codes `v1 v2 …`; `i:` = a
-message without changes; `-` = no events).  Answer: `fwd=` the values forwarded, in order. -/
+message without changes; `-` = no events).  A 4th token `k`: the `k`-th Send fails (0: none).  Answer: `fwd=` the values forwarded, in order, then
+`end=harness` (the subscription ran until the harness cancelled it) or `end=senderr after=<messages> ctx=1`. -/
 
 def parseEvent? (s : String) : Option (Nat × List Nat) :=
   match s.splitOn ":" with
@@ -221,16 +222,21 @@ def parseEvent? (s : String) : Option (Nat × List Nat) :=
     pure (i, vs)
   | _ => none
 
-def handlePull (trait : String) (n : Nat) (evs : List (Nat × List Nat)) : Option String :=
-  let shown : Option (List String) := match trait with
-    | "light" =>
-      some ((pullRun lightReduceChanges n (evs.map fun ev => (ev.1, ev.2.map levelOf))).sent.map
-        fun v => (v.map showRat).getD "nil")
-    | "onoff" =>
-      some ((pullRun onoffReduceChanges n (evs.map fun ev => (ev.1, ev.2.map onoffOf))).sent.map
-        fun v => (v.map showOnOff).getD "nil")
-    | _ => none
-  shown.map fun xs => "fwd=" ++ dash (",".intercalate xs)
+def showPull (n : Nat) (show1 : Option V → String) (r : PullSt V × Option Nat × Nat) : String :=
+  let fwd := "fwd=" ++ dash (",".intercalate (r.1.sent.map show1))
+  match r.2.1 with
+  | some k => fwd ++ " end=senderr after=" ++ toString k ++ " ctx=" ++ (if n = 0 then "-" else "1")
+  | none => fwd ++ " end=harness"
+
+def handlePull (trait : String) (n : Nat) (evs : List (Nat × List Nat)) (failAt : Nat) : Option String :=
+  match trait with
+  | "light" =>
+    some (showPull n (fun v => (v.map showRat).getD "nil")
+      (pullRunFail lightReduceChanges n failAt (evs.map fun ev => (ev.1, ev.2.map levelOf))))
+  | "onoff" =>
+    some (showPull n (fun v => (v.map showOnOff).getD "nil")
+      (pullRunFail onoffReduceChanges n failAt (evs.map fun ev => (ev.1, ev.2.map onoffOf))))
+  | _ => none
 
 def isPerm (order : List Nat) (n : Nat) : Bool :=
   order.length == n && (List.range n).all fun i => order.contains i
@@ -260,12 +266,13 @@ def handle (toks : List String) : String :=
       if rpc = "Pull" && vals.length ≠ n then none
       handleGroup trait rpc strat behs order pc vals
     r.getD "!bad-op"
-  | ["pull", trait, n, evs] =>
+  | ["pull", trait, n, evs, failAt] =>
     let r : Option String := do
       let n ← parseNat? n
       let evs ← parseList? parseEvent? evs
+      let failAt ← parseNat? failAt
       if evs.any (fun ev => ev.1 ≥ n) then none
-      handlePull trait n evs
+      handlePull trait n evs failAt
     r.getD "!bad-op"
   | _ => "!bad-op"
 
